@@ -94,12 +94,15 @@ def _is_type_of_live(e, is_live):
     return isinstance(e, ast.Call) and isinstance(e.func, ast.Name) and e.func.id == 'type' and len(e.args) == 1 and is_live(e.args[0])
 
 
+TYPE_TABLES = ('ALLOWED_GETITEM_TYPES', 'ALLOWED_BOOL_TYPES')     # members checked one by one in C13.d
+
+
 def _builtin_types_expr(repo, e):
     """Is `e` a collection of builtin container types only (literal tuple or the module's
     ALLOWED_GETITEM_TYPES, which C13.d checks member by member)?"""
-    if isinstance(e, ast.Name) and e.id == 'ALLOWED_GETITEM_TYPES':
+    if isinstance(e, ast.Name) and e.id in TYPE_TABLES:
         return True
-    if isinstance(e, ast.Attribute) and e.attr == 'ALLOWED_GETITEM_TYPES':
+    if isinstance(e, ast.Attribute) and e.attr in TYPE_TABLES:
         return True
     if isinstance(e, (ast.Tuple, ast.List, ast.Set)) and e.elts:
         return all(isinstance(x, ast.Name) and x.id in BUILTIN_CONTAINERS and repo.resolve(x) == 'builtins.' + x.id for x in e.elts)
@@ -182,7 +185,7 @@ def rule_a(repo, chk):
                 ok = ok2
             chk.ob('C13.a', ok, node, '%s `%s` (runs user %s) is gated by exact builtin type or the safe switch' % (desc, short(node, 40), proto),
                    detail, key='%s:%s|%s|%s' % (modname, q, proto, norm(node)))
-    chk.floor('C13.a', n_s2, 4, '(S2 sinks on live objects in access.py/mixed.py)')
+    chk.floor('C13.a', n_s2, 3, '(S2 sinks on live objects in access.py/mixed.py)')
     chk.notes['S2_sinks'] = n_s2
     chk.exhaustive_rules.append('C13.a every function of compiled/access.py and compiled/mixed.py scanned for protocol sinks')
     # MixedObject goes to the compiled item access only under the exact-type gate
@@ -391,6 +394,18 @@ def rule_d(repo, chk):
         ok = isinstance(e, ast.Name) and e.id in BUILTIN_CONTAINERS and repo.resolve(e) == 'builtins.' + e.id
         chk.ob('C13.d', ok, e, 'ALLOWED_GETITEM_TYPES member `%s` is a builtin container type' % short(e), 'resolves to %s' % repo.resolve(e))
     chk.floor('C13.d', len(elts or []), 3)
+    # further exact-type tables used as gates (same demand: builtin types only; `type(None)` is NoneType)
+    for tname in TYPE_TABLES[1:]:
+        tb = repo.module(ACCESS).top.get(tname)
+        if tb is None:
+            continue
+        els = tb.value.elts if isinstance(getattr(tb, 'value', None), (ast.Tuple, ast.List)) else None
+        chk.ob('C13.d', els is not None, tb, '%s is a literal tuple' % tname)
+        for e in els or []:
+            ok = (isinstance(e, ast.Name) and e.id in BUILTIN_CONTAINERS and repo.resolve(e) == 'builtins.' + e.id) or norm(e) == 'type(None)'
+            chk.ob('C13.d', ok, e, '%s member `%s` is a builtin type' % (tname, short(e)), 'resolves to %s' % repo.resolve(e))
+        stores = [x for m in repo.modules.values() for x in ast.walk(m.tree) if isinstance(x, ast.Name) and x.id == tname and isinstance(x.ctx, ast.Store)]
+        chk.ob('C13.d', len(stores) == 1, tb, '%s is bound exactly once' % tname, '%d bindings' % len(stores))
     # no other binding / mutation of the tables
     for name in ('ALLOWED_GETITEM_TYPES', 'ALLOWED_DESCRIPTOR_ACCESS'):
         stores = [x for m in repo.modules.values() for x in ast.walk(m.tree)
@@ -445,6 +460,31 @@ def rule_d(repo, chk):
              and getattr(second.args[1], 'value', None) == '__get__')
         chk.ob('C13.d', classified, r, 'class-dictionary hit `%s` is reported with is_get_descriptor computed from __get__' % short(r, 70),
                'second element: %s' % short(second), key='getattr_static-return|%s' % norm(first))
+    # ORDER: for a type, a DATA descriptor of the metaclass wins over the class's own attribute (type.__getattribute__): no class-level or
+    # instance-level answer is returned for obj-is-a-class before the metaclass was asked
+    mc = [n for n in own_nodes(g) if isinstance(n, ast.Call) and call_name(n) == '_check_class' and n.args and norm(n.args[0]).startswith('type(')]
+    cg = cfg_of(g)
+    early = [n for n in cg.nodes if n.kind == 'stmt' and isinstance(n.ast, ast.Return) and isinstance(n.ast.value, ast.Tuple)
+             and norm(n.ast.value.elts[0]) in ('klass_result', 'instance_result')]
+    mcn = [n for n in cg.nodes if node_has(n, lambda x: x in mc)]
+    p_ = cg.reach([cg.entry], lambda n: n in early, block_node=lambda n: n in mcn,
+                  block_edge=lambda n, k, m: n.kind == 'test' and norm(n.ast) == 'obj is klass' and k == 'F') if early else None
+    chk.ob('C13.d', bool(mc) and p_ is None, g, 'for a class object the metaclass is asked for a data descriptor before any class-level result is returned '
+           '(a class attribute must not mask a metaclass property: the real getattr would run it)',
+           'no metaclass lookup' if not mc else ('path: %s' % cg.describe(p_) if p_ else ''), key='metaclass-first')
+    ok = any(isinstance(x, ast.Call) and call_name(x) == '_safe_is_data_descriptor' and norm(x.args[0]) == 'metaclass_result' for x in own_nodes(g))
+    chk.ob('C13.d', ok, g, 'the early metaclass answer is given for DATA descriptors only (a non-data descriptor is shadowed by the class attribute)')
+    # chaining descriptors: classmethod.__get__ (3.9-3.12) calls the __get__ of what it wraps
+    tbl = repo.toplevel(ACCESS, 'ALLOWED_DESCRIPTOR_ACCESS')
+    if any(repo.resolve(e) == 'builtins.classmethod' for e in getattr(tbl.value, 'elts', [])):
+        ia = repo.find(ACCESS, 'DirectObjectAccess.is_allowed_getattr')
+        unwrap = [a for a in stmts_in(ia, ast.Assign) if norm(a.targets[0]) == 'attr' and norm(a.value) == 'attr.__func__']
+        okc = bool(unwrap) and all(gate(ia, a, lambda e, pol: pol and isinstance(e, ast.Compare) and norm(e.left) == 'type(attr)' and
+                                        norm(e.comparators[0]) == 'classmethod') is None for a in unwrap)
+        tests = [n for n in cfg_of(ia).nodes if n.kind == 'test' and 'ALLOWED_DESCRIPTOR_ACCESS' in norm(n.ast)]
+        chk.ob('C13.d', okc and bool(tests), ia, 'classmethod is an allowed descriptor type, but classmethod.__get__ chains to the wrapped object\'s __get__ '
+               '(Python 3.9-3.12): is_allowed_getattr judges the wrapped object (attr.__func__) when type(attr) is classmethod',
+               'no unwrapping of attr.__func__ under `type(attr) is classmethod`', key='classmethod-chain')
     sid = repo.find(STATIC, '_safe_is_data_descriptor')
     rv = sid.body[-1].value if sid.body and isinstance(sid.body[-1], ast.Return) else None
     names = sorted(a.value for c in ast.walk(sid) if isinstance(c, ast.Call) and call_name(c) == '_safe_hasattr'
@@ -556,7 +596,28 @@ def rule_g(repo, chk):
                 ok = bool(meth) and classified
                 chk.ob('C13.g', ok, c, '`%s` in %s runs only for values get_array_type() classified as builtin dict' % (short(c), q),
                        '' if ok else ('ungated: %s' % w), key='keys|%s|%s' % (q, norm(c)))
-    chk.floor('C13.g', n, 1, '(keys()/values()/items() of a live object)')
+    # the other safe form: the builtin's own method called unbound on the object (dict.keys(obj), list.__iter__(obj)): a subclass
+    # cannot intercept it
+    for modname in (ACCESS, MIXED):
+        for q, f in sorted(repo.module(modname).defs.items()):
+            if not isinstance(f, FUNC_TYPES):
+                continue
+            is_live = live_exprs(f)
+            for c in [x for x in own_nodes(f) if isinstance(x, ast.Call) and isinstance(x.func, ast.Attribute) and isinstance(x.func.value, ast.Name)
+                      and x.func.value.id in ('dict', 'list', 'tuple', 'set', 'frozenset') and x.args and is_live(x.args[0])]:
+                n += 1
+                base = x_base = c.func.value.id
+                ok = repo.resolve(c.func.value) == 'builtins.' + base
+                # the object must be an instance of that builtin for the unbound call to be valid: isinstance gate in the method or classified
+                dg = dict_gate(is_live)
+                w = gate(f, c, lambda e, pol: dg(e, pol))
+                if w is not None and q.split('.')[-1] in ('iter_partial_keys',) or 'get_key_paths' in q:
+                    if classified is None:
+                        classified = _classifier_ok(repo, chk, dict_gate)
+                    w = None if classified else w
+                chk.ob('C13.g', ok and w is None, c, '`%s` in %s uses the builtin\'s own method on an object known to be an instance of it' % (short(c), q),
+                       w or '', key='unbound|%s|%s' % (q, norm(c)))
+    chk.floor('C13.g', n, 1, '(keys()/values()/items() of a live object, bound or through the builtin)')
 
 
 def _classifier_ok(repo, chk, dict_gate):
@@ -587,6 +648,27 @@ def _classifier_ok(repo, chk, dict_gate):
     return ok
 
 
+def rule_h(repo, chk):
+    chk.clause('C13.h', 'the one hook that cannot be avoided, dir(obj) (names must be complete), is contained: every dir(<live object>) in '
+                        'access.py/mixed.py sits in a try that catches Exception (a user __dir__ may raise anything) and only str names '
+                        'are passed on (a user __dir__ may return anything)')
+    from ..lib import enclosing_handlers, handler_types
+    n = 0
+    for modname in (ACCESS, MIXED):
+        for q, f in sorted(repo.module(modname).defs.items()):
+            if not isinstance(f, FUNC_TYPES):
+                continue
+            is_live = live_exprs(f)
+            for c in [x for x in own_nodes(f) if isinstance(x, ast.Call) and isinstance(x.func, ast.Name) and x.func.id == 'dir' and x.args and is_live(x.args[0])]:
+                n += 1
+                st = repo.enclosing_stmt(c)
+                hs = [h for t in enclosing_handlers(st, f) for h in t.handlers if handler_types(h) & {'Exception', 'BaseException', '*'}]
+                chk.ob('C13.h', bool(hs), c, '`%s` in %s is inside try/except Exception' % (short(c), q), key='dir-contained|%s' % q)
+                filt = [x for x in own_nodes(f) if isinstance(x, ast.Call) and call_name(x) == 'isinstance' and len(x.args) == 2 and norm(x.args[1]) == 'str']
+                chk.ob('C13.h', bool(filt), c, 'names that are not str are dropped in %s' % q, key='dir-str|%s' % q)
+    chk.floor('C13.h', n, 1, '(dir() of a live object)')
+
+
 def rule_e(repo, chk):
     chk.clause('C13.e', 'MUST: names are complete: CompiledValueFilter.values iterates every key of get_dir_infos() (dir(obj) in full) and, '
                         'on that path, _get returns a non-empty list on every exit')
@@ -605,8 +687,12 @@ def rule_e(repo, chk):
     ok = any(isinstance(n, ast.comprehension) and norm(n.iter) == 'self.dir()' and not n.ifs for n in ast.walk(di))
     chk.ob('C13.e', ok, di, 'get_dir_infos covers every name of self.dir() (no filter)')
     d = repo.find(ACCESS, 'DirectObjectAccess.dir')
-    ok = len(d.body) == 1 and isinstance(d.body[0], ast.Return) and norm(d.body[0].value) == 'dir(self._obj)'
-    chk.ob('C13.e', ok, d, 'dir() is dir(obj) in full')
+    has_dir = any(isinstance(x, ast.Call) and isinstance(x.func, ast.Name) and x.func.id == 'dir' and x.args and norm(x.args[0]) == 'self._obj' for x in own_nodes(d))
+    filters = [i_ for x in ast.walk(d) if isinstance(x, ast.comprehension) for i_ in x.ifs]
+    only_str = all(isinstance(i_, ast.Call) and call_name(i_) == 'isinstance' and len(i_.args) == 2 and norm(i_.args[1]) == 'str' for i_ in filters)
+    cut = [x for x in own_nodes(d) if isinstance(x, ast.Subscript)]
+    chk.ob('C13.e', has_dir and only_str and not cut, d, 'dir() is dir(obj) in full (nothing but non-str entries is dropped, no truncation)',
+           'filters: %s' % [norm(i_) for i_ in filters])
     # _get: with check_has_attribute False and in_dir true, every exit returns a non-empty list
     g = repo.find(VALUE, 'CompiledValueFilter._get')
     c = cfg_of(g)
@@ -644,4 +730,4 @@ def describe(chk):
     chk.assume('live object = `<x>._obj`, its plain local aliases, and parameters named obj/python_object in compiled/access.py and compiled/mixed.py')
 
 
-RULES = [('C13.a', rule_a), ('C13.b', rule_b), ('C13.c', rule_c), ('C13.d', rule_d), ('C13.e', rule_e), ('C13.f', rule_f), ('C13.g', rule_g)]
+RULES = [('C13.a', rule_a), ('C13.b', rule_b), ('C13.c', rule_c), ('C13.d', rule_d), ('C13.e', rule_e), ('C13.f', rule_f), ('C13.g', rule_g), ('C13.h', rule_h)]
